@@ -354,9 +354,16 @@ package parser
 //@   loop 1 ensures len(nodes) == atloop(1, len(nodes)) + 1 && calls("item") == atloop(1, calls("item")) + 1
 
 // frames of the productions not (yet) under a functional contract
+// TypeSystemDefinition: the keyword (after an optional description) selects the production; anything
+// else is reported AT THAT TOKEN (C18), not at the description before it
 //@ func parseTypeSystemDefinition
-//@   trusted
+//@   props C03 C18
+//@   nosafety
 //@   assigns class:parser.Parser.PrevEnd, class:parser.Parser.Token, class:ast., class:E|
+//@   opt callback.LexToken=pure
+//@   requires parser != nil && parser.Source != nil
+//@   at call unexpected: assert arg0 == parser && arg1 == keywordToken
+//@   at call item: assert arg0 == parser && keywordToken.Kind == lexer.NAME
 //@ func unexpectedEmpty
 //@   trusted
 //@   assigns nothing
